@@ -311,6 +311,11 @@ func c11Scenarios() []c11Scenario {
 		// a paused canary is validated (the annotations must be cleared at promotion), then the next rollout starts
 		{"canary-paused-validated-next-rollout", timed(scOpt{name: "C11-paused-validated", nodes: n2, eds: []w.EDSOpt{w.WithCanary("1", 0, 0, "manual")}}),
 			[][]w.Event{{evb("setTemplate", edsKey, "B")}, {w.Event{K: "kubectl", A: edsKey, B: "canary-pause"}}, {w.Event{K: "kubectl", A: edsKey, B: "canary-validate"}}, {evb("setTemplate", edsKey, "C")}}},
+		// migration from an apps/v1 DaemonSet whose pods still run: they are the previous version and are replaced within the
+		// rolling-update limits, never doubled
+		{"migration-from-daemonset", timed(scOpt{name: "C11-migration", nodes: n2, raw: true, eds: []w.EDSOpt{w.WithAnnotation(v1.ExtendedDaemonSetOldDaemonsetAnnotationKey, "old")},
+			extra: []client.Object{oldDS("ns", "old", map[string]string{"app": "old"}),
+				strayPod("ns", "old-n1", "n1", map[string]string{"app": "old"}, "old"), strayPod("ns", "old-n2", "n2", map[string]string{"app": "old"}, "old")}}), [][]w.Event{{}}},
 		{"node-removal", timed(scOpt{name: "C11-node-removal", nodes: []string{"n1", "n2", "n3"}}), [][]w.Event{{w.Event{K: "delNode", A: "n2"}}}},
 		{"settings-change", timed(scOpt{name: "C11-settings-change", nodes: n2, extra: []client.Object{set}}), [][]w.Event{{w.Event{K: "R_set", A: "ns/set1"}}}},
 	}
